@@ -1328,6 +1328,10 @@ EXTERNALS = {
     "numpy.number": SType("numpy.number"),
     "numpy.float64": SType("numpy.float64"),
     "numpy.float32": SType("numpy.float32"),
+    "numpy.generic": SType("numpy.generic"),
+    "numpy.floating": SType("numpy.floating"),
+    "numpy.integer": SType("numpy.integer"),
+    "numpy.inexact": SType("numpy.inexact"),
     "io.StringIO": SType("StringIO"),
     "traceback.print_stack": lambda I, a, k: SNone,
     "StringIO.getvalue": lambda I, a, k: OPAQUE,
